@@ -63,9 +63,11 @@ def family(tier):
                 # put a disjunction in the behaviour to check that it is left alone
                 wpos = sp or 'beh'
                 for w in range(1, b['max_width'] + 1):
-                    for deco in ('plain', 'pred_first', 'pred_all', 'alias', 'scope_alias'):
+                    for deco in ('plain', 'pred_first', 'pred_all', 'alias', 'scope_alias', 'pred_conj', 'pred_disj'):
                         for ow in range(1, (b['other_width'] if two else 1) + 1):
                             if tier == 'quick' and ow == 2 and (w == 3 or deco not in ('plain', 'alias')):
+                                continue
+                            if deco in ('pred_conj', 'pred_disj') and (w == 3 or ow == 2):
                                 continue
                             if term is not None and term[0] == 'evor' and (w == 3 or ow == 2 or deco not in ('plain', 'pred_first')):
                                 continue  # a disjunctive terminator (never split): a thinner slice of the other axes
@@ -79,6 +81,11 @@ def family(tier):
                                     pred = veq(0)
                                 elif deco == 'pred_all':
                                     pred = veq(1)
+                                elif deco == 'pred_conj':
+                                    # a conjunction / disjunction INSIDE a predicate is not an event alternative
+                                    pred = ('pred', ('bin', 'and', ('bin', '>=', V, num(0)), ('bin', '<', V, num(1)))) if j == 0 else props.PTRUE
+                                elif deco == 'pred_disj':
+                                    pred = ('pred', ('bin', 'or', ('bin', '<', V, num(0)), ('bin', '>', V, num(0)))) if j == 0 else veq(0)
                                 elif deco == 'alias':
                                     if not two:
                                         pred = None
@@ -372,7 +379,7 @@ def replay(w):
 def describe(tier):
     b = bounds(tier)
     return {
-        'rule': f"properties: 4 scope kinds (activator simple, with/without alias; terminator with/without predicate) x 5 pattern kinds x width 1..{b['max_width']} at the position canonical_form splits (behaviour for existence, to see it is left alone) x other event width 1..{b['other_width']} x decorations (plain, predicate on first / all alternatives, alias bound on every alternative and used by the other event or vice versa, activator alias used by every alternative) x time bound (none, {b['time_bounds_s']} s); x all timed traces of length <= {b['trace_len']} (per property the largest length whose complete trace set has <= {b['trace_budget']} traces, never below 2; histogram in outcome_histogram trace_len=*) over mentioned topics + 'o', payload v in {{0,1}} where predicates exist, gaps 0/1/2 s, end slack 0/3 s. Also: alternatives (or the other event) that share their topic with the terminator or the activator under a different predicate (4 scope forms x 5 patterns x 2 shared topics x 5 arrangements); disjunctive terminators (never split) on a thinner slice of the other axes; properties with two alternatives are additionally taken through three other routes: API left-nested, derived with but() from a canonicalised property, and API-built with the time window [1 s, 2 s] (min_time has no syntax; read as the start of the window). evaluations = properties; validated = traces on which the property and the conjunction of its canonical form were compared; nontrivial = properties with a disjunction at the split position.",
+        'rule': f"properties: 4 scope kinds (activator simple, with/without alias; terminator with/without predicate) x 5 pattern kinds x width 1..{b['max_width']} at the position canonical_form splits (behaviour for existence, to see it is left alone) x other event width 1..{b['other_width']} x decorations (plain, predicate on first / all alternatives, a conjunctive / disjunctive predicate on the first alternative, alias bound on every alternative and used by the other event or vice versa, activator alias used by every alternative) x time bound (none, {b['time_bounds_s']} s); x all timed traces of length <= {b['trace_len']} (per property the largest length whose complete trace set has <= {b['trace_budget']} traces, never below 2; histogram in outcome_histogram trace_len=*) over mentioned topics + 'o', payload v in {{0,1}} where predicates exist, gaps 0/1/2 s, end slack 0/3 s. Also: alternatives (or the other event) that share their topic with the terminator or the activator under a different predicate (4 scope forms x 5 patterns x 2 shared topics x 5 arrangements); disjunctive terminators (never split) on a thinner slice of the other axes; properties with two alternatives are additionally taken through three other routes: API left-nested, derived with but() from a canonicalised property, and API-built with the time window [1 s, 2 s] (min_time has no syntax; read as the start of the window). evaluations = properties; validated = traces on which the property and the conjunction of its canonical form were compared; nontrivial = properties with a disjunction at the split position.",
         'bounds': b,
         'exhaustive': True,
         'assumptions': [
